@@ -299,11 +299,13 @@ func (c *Client) Stop() error {
 	// Check if protocol is already done before sending Done message
 	if !c.IsDone() {
 		msg := NewMsgDone()
-		sendErr = c.SendMessage(msg)
+		// Wait (bounded) until Done has been written to the connection: the
+		// send loop drops whatever it still holds once the protocol is stopped
+		// below, so an empty send queue is not enough
+		_, sendErr = c.SendMessageAndWaitTimeout(msg, 250*time.Millisecond)
 		if errors.Is(sendErr, protocol.ErrProtocolShuttingDown) {
 			sendErr = nil
 		}
-		_ = c.WaitSendQueueDrained(250 * time.Millisecond)
 	}
 	if busyLocked {
 		c.busyMutex.Unlock()
